@@ -136,7 +136,7 @@ def main(tier, seed, replay=None):
     common.ensure_worker("chk")
     run = common.Run(PROP, tier, seed)
     q = tier == "quick"
-    cases = [("gen", seed, i) for i in range(500 if q else 50000)]
+    cases = [("gen", seed, i) for i in range(3000 if q else 50000)]
     cases += [("corpus", p, t) for p, t in gen_mutate.corpus()]
     for r in common.run_sharded(run_case, cases):
         if r.get("verdict") is None and "harness_error" not in r:
